@@ -19,6 +19,10 @@ CLAIMED = {
          'Static: all 58 read_*/write_* pairs and 41 serialize/deserialize pairs consume/emit the same primitive grammar; the k-th written item comes from the field the k-th read item ends in; every field of a serialised struct is written (or is reconstructed, reviewed); gate/generator registries enumerate every impl, in the same order on both sides, with distinct ids. Value round-trip and interchangeability of restored circuits are not decided.', '5/C17'),
  'C18': ('interprocedural taint over typed HIR (validators/decoders panic census), type-driven length-pin coverage, validate-before-use ordering',
          'Static: validators and proof decoders contain no panic site fed by input-derived data in their workspace call closure; every vector/cap/option length of the proof type family is pinned by an Err-guard; every entry point validates before use; decoders never allocate by an input-read size. Known finding D3 (compressed path unvalidated) is listed in known_findings.json.', '5/C18'),
+ 'C19': ('type-resolved census of hash-container iteration sites (typed HIR, cross-checked with MIR call edges) classified by consumer; rayon combinator allow-list over MIR call edges; sort-key injectivity obligation',
+         'Static: every iteration over a HashMap/HashSet is order-insensitive, sorted, log-only or a reviewed exception; the gate list that feeds the circuit key is sorted by a key containing the unique gate id; all rayon calls are order-preserving combinators except find_any in the grinding search (re-checked sequentially). SIMD lane equality and debug/release arithmetic are numeric and not decided.', '5/C19'),
+ 'C20': ('positional data-flow through select_* functions (typed HIR), obligation tables for conditional/cyclic recursion, layout comparison',
+         'Static: every select_* of the conditional verifier passes (condition, x0-part, x1-part) with identical field paths and builds each result field from the same field of both inputs; proof and verifier data are selected with the same condition and order; the cyclic proof is paired with the circuit\'s own verifier data; embedded verifier data is connected, registered, parsed and compared field by field with one layout; the dummy circuit asserts its common data. Behavioural acceptance clauses are not decided.', '5/C20'),
 }
 NA = {
  'C13': 'numeric equality of optimised and naive Poseidon / sponge over all 2^64-valued states: no structural clause beyond what C04 (sponge typestate) decides; would need symbolic execution + solver (another family)',
